@@ -3,6 +3,8 @@ package scen
 import (
 	"encoding/json"
 	"fmt"
+	"runtime/debug"
+	"strings"
 
 	"github.com/crillab/gophersat/solver"
 
@@ -40,11 +42,35 @@ func guard(f func()) (panicked string, aborted bool) {
 				aborted = true
 			} else {
 				panicked = fmt.Sprint(e)
+				lastPanicSite = panicSite(string(debug.Stack()))
 			}
 		}
 	}()
 	f()
 	return
+}
+
+// lastPanicSite is the innermost gophersat function on the stack of the last panic caught by guard.
+var lastPanicSite string
+
+func panicSite(stack string) string {
+	lines := strings.Split(stack, "\n")
+	seenPanic := false
+	for _, ln := range lines {
+		if strings.HasPrefix(ln, "panic(") {
+			seenPanic = true
+			continue
+		}
+		if seenPanic && strings.HasPrefix(ln, "github.com/crillab/gophersat/") {
+			fn := strings.TrimPrefix(ln, "github.com/crillab/gophersat/")
+			if i := strings.LastIndex(fn, "("); i > 0 {
+				fn = fn[:i]
+			}
+			fn = strings.NewReplacer("(*Solver).", "", "(*Problem).", "", "(*Clause).", "", "(*pbSet).", "").Replace(fn)
+			return fn
+		}
+	}
+	return "unknown"
 }
 
 func runProbSolve(p Prob, cp, amo bool) (o probObs) {
